@@ -96,6 +96,16 @@ class Gen:
         return [(prefix + l) if l else l for l in lines]
 
     # ------------------------------------------------------------------ inline
+    # call-like targets as they occur in driver documentation: long argument lists, call chains, a forgotten closing parenthesis,
+    # deep or lopsided bracket nesting, long runs of one character class without the terminator a pattern might be waiting for
+    CALLS = ['db.collection.updateMany({status: "A", qty: {$lt: 30}}, {$set: {size: "large"}}',
+             'db.getSiblingDB("a_rather_long_database_name_for_reporting").runCommand',
+             'db.coll.aggregate([{$match: {a: 1}}, {$group: {_id: "$b", n: {$sum: 1}}}])',
+             'db.getCollection("orders").find({}).sort({a: 1}).limit(5)',
+             "f(" + "a" * 60, "f(" * 40, "f(" * 30 + ")" * 29, "f(" + "(a)" * 30, "f(" + "a," * 40 + "b", "f" + "()" * 40 + "(",
+             "f(" + " " * 60, "x" * 300 + "(", "f(a(b(c(d(e(g(h(i(j(k(l(m(n(o(p(q(r(s(t(u(v", "a <" + "b" * 80, "<" * 60 + "x", "~" + "a." * 60,
+             "t <" + "f(" * 30 + ">"]
+
     def role(self):
         name = self.ch(self.roles) if self.p(0.9) else self.ch(["nope", "mongodb:nope", "zz:ref", ":", "std:", "py:meth", "ref", "doc", "icon", "icon-fa5", "guilabel", "abbr", "rfc"])
         if self.p(0.15) and ":" not in name:
@@ -107,7 +117,7 @@ class Gen:
         else:
             t = self.ch(["x", "db.coll.find()", "--opt", "mongod --port", "a.b", "~a.b", "!a", "", " ", "a (b)", "a <b>", "a <b", "<b>", "a <>", "  <x>", "\\<x>", "x\\", "é", "%s", "%", "a`b",
                          "1", "RFC 1", "t <~a.b>", "t <!a>", "-", "--", "a  b", "a\\ b", "()", "a()", "a(b", "a.b.c(d, e)", "$x", "a <b> c"])
-            body = t
+            body = t if self.p(0.9) else self.ch(self.CALLS)
         form = self.r.random()
         if form < 0.85:
             return f":{name}:`{body}`"
@@ -288,6 +298,11 @@ class Gen:
             n += step
         if self.p(0.15):
             out.append(fmt.format(self.enumerator(seq, n)) + " tail")
+            out.append("not indented continuation")
+        if self.p(0.03):
+            # an arabic enumerator at the interpreter's limit for int <-> str conversion (4300 digits): the enumerator itself
+            # converts, its successor (needed to check the line after a one-line item) does not
+            out.append(fmt.format(self.ch(["9" * 4300, "9" * 4299, "1" + "0" * 4299, "9" * 4301])) + " tail")
             out.append("not indented continuation")
         return out
 
@@ -527,7 +542,8 @@ class Gen:
         if base in ("include", "sharedinclude"):
             return self.ch(["/includes/a.rst", "/nope.rst", "x.rst", "/"])
         if base == "openapi":
-            return self.ch(["/code/spec.yaml", "/nope.yaml", "http://127.0.0.1:1/x", "cloud", ":ref:`x`"])
+            return self.ch(["/code/spec.yaml", "/nope.yaml", "http://127.0.0.1:1/x", "cloud", ":ref:`x`", "/code/bad.yaml", "/code/date.yaml",
+                            "/code/alias.yaml", "/code/tab.yaml", "/images/bad.bin", "/code/latin1.txt", "/code/empty.txt", "/code"])
         if base == "openapi-changelog":
             return self.ch(["cloud", "x"])
         if base in ("pubdate", "updated-date"):
@@ -562,7 +578,7 @@ class Gen:
         sp = self.special_arg(name)
         if d["arg"] or self.p(0.1):
             if self.p(0.85):
-                arg = sp if (sp is not None and self.p(0.8)) else self.ch([self.text(), self.word(), self.ch(ILL), self.ch(URIS), "a()", "a.b(c)", "--x <y>, -z"])
+                arg = sp if (sp is not None and self.p(0.8)) else self.ch([self.text(), self.word(), self.ch(ILL), self.ch(URIS), "a()", "a.b(c)", "--x <y>, -z", self.ch(self.CALLS)])
         if arg is not None:
             head += " " + arg.split("\n")[0]
         lines = [head.rstrip() if self.p(0.95) else head + " "]
@@ -630,6 +646,11 @@ class Gen:
                     content.append("* x")
             if self.p(0.15):
                 content += self.blocks(depth + 1, 1, 1)
+        elif base == "facet" and depth < 4:
+            # facets nest (target_product > sub_product / version); the nested one is validated against the entry selected by the
+            # enclosing ones, whose attributes (name, display_name) are not categories
+            for _ in range(self.r.randint(0, 2)):
+                content += self.sub_directive("facet", depth) + [""]
         elif base == "io-code-block":
             for part in self.ch([["input", "output"], ["input"], ["output"], ["output", "input"], ["input", "input"], [], ["note"]]):
                 content += self.sub_directive(part, depth) + [""]
@@ -695,7 +716,8 @@ class Gen:
                 return self.ch([", ".join(c[0] for c in picks), "zz", "", ",", "a,,b", " , "])
             return self.ch([", ".join(self.ch(c[1] + ["None"]) if c[1] else "x" for c in picks), "zz", "", ",", "None", "a,,b"])
         if base == "facet" and k in ("name", "values"):
-            return self.ch(["genre", "programming_language", "target_product", "tutorial", "atlas", "zz", "", "a,b", "atlas, zz", ","])
+            return self.ch(["genre", "programming_language", "target_product", "target_product", "tutorial", "atlas", "atlas", "zz", "", "a,b", "atlas, zz", ",",
+                            "sub_product", "sub_product", "version", "name", "display_name", "atlas-cli", "charts", "bi-connector", "v1.0", "BI Connector"])
         if base == "list-table" and k in ("header-rows", "stub-columns"):
             return self.ch(["0", "1", "2", "9", "x", "-1", ""])
         if base == "list-table" and k == "widths":
